@@ -217,7 +217,8 @@ def g_entropy(rng):
 
 def b_entropy(p):
     a = np.array(p["counts"], dtype=float).reshape(p["shape"])
-    return {"p": a / a.sum()}
+    # normalize=True is documented as "not in place; duplicates p": hand it unnormalised counts
+    return {"p": a if p["normalize"] else a / a.sum()}
 
 
 def c_entropy(a, p):
